@@ -1,5 +1,6 @@
 import Csproto.Props.C20
 import Csproto.Bridge.Facts
+import Csproto.Bridge.Tools
 /- axiom audit for C20 -/
 open Csproto
 #print axioms C20.significant_eq_flatten
@@ -11,5 +12,20 @@ open Csproto
 #print axioms C20.dumpLoop_no_panic
 #print axioms C20.dumpProto_no_panic
 #print axioms C20.dump_entries
+#print axioms C20.hexDigitVal_isSome_iff
+#print axioms C20.hex_rejects_non_ascii
+#print axioms C20.hex_bytes_sound
+#print axioms C20.hex_bytes_rejects
+#print axioms C20.hex_bytes_complete
+#print axioms C20.sizesD_le_wires
+#print axioms C20.dump_tree
+#print axioms C20.dumpProto_tree
+#print axioms C20.recursed_iff
+#print axioms Bridge.tagPaths_written_only_by_Set
+#print axioms Bridge.dump_writes_classified
+#print axioms Bridge.protodump_structs_ok
+#print axioms Bridge.protodump_no_global_state
+#print axioms Bridge.dump_input_verbatim
+#print axioms Bridge.hex_calls_ok
 #print axioms Bridge.maxTagValue_ok
 #print axioms Bridge.wireTypes_ok
